@@ -35,11 +35,11 @@ def setup_shard(ctx):
 
 
 def plan(tier):
-    return {"cases": 160 if tier == "quick" else 2400, "shards": 8 if tier == "quick" else 14,
+    return {"cases": 120 if tier == "quick" else 2400, "shards": 8 if tier == "quick" else 14,
             "min_nontrivial": 2000, "timeout": 900 if tier == "quick" else 3000,
-            "require": {"schedules": 20000, "yield_points": 500000, "lock_acquisitions": 50000,
-                        "schedules_with_switch_inside": 5000, "sequential_outcome_sets": 100,
-                        "order_dependent_workloads": 40, "opposite_transfer_workloads": 10, "stress_runs": 2,
+            "require": {"schedules": 8000, "yield_points": 300000, "lock_acquisitions": 50000,
+                        "schedules_with_switch_inside": 2000, "sequential_outcome_sets": 40,
+                        "order_dependent_workloads": 15, "opposite_transfer_workloads": 5, "stress_runs": 2,
                         "instrumented_code_objects": 8}}
 
 
